@@ -41,25 +41,79 @@ Theorem C18_hint_rules :
 Proof. exact hint_rules. Qed.
 Print Assumptions C18_hint_rules.
 
+(* opts = the provider options that concern token verification, in the order NewProvider applies
+   them: WithAccessTokenKeySet, WithIDTokenHintKeySet, WithAccessTokenVerifierOpts(algorithms),
+   WithIDTokenHintVerifierOpts(algorithms).  A key set (keyset) trusts the keys the storage publishes
+   while the request is served and / or a fixed list of its own.  model_esreq opts x = request x as
+   the validator of a provider built with opts sees it (hint classified by the verifier fields the
+   options left behind).
+
+   After ALL options ran, the hint verifier holds the key set of the LAST WithIDTokenHintKeySet -
+   the storage's published keys if there is none - and the algorithms of the last
+   WithIDTokenHintVerifierOpts: nothing else designates anything for hints. *)
+Theorem C18_hint_keyset_designated :
+  forall opts : list popt,
+    v_hint_keys (configure opts) = designated_keys opts /\
+    v_hint_algs (configure opts) = designated_algs opts.
+Proof. exact hint_keyset_designated. Qed.
+Print Assumptions C18_hint_keyset_designated.
+
+(* Options about ACCESS TOKENS (key set, algorithms) - any number, anywhere among the options,
+   carrying any key set - do not change how an id_token_hint is judged: dropping them all gives
+   the same validator input for every request. *)
+Theorem C18_access_token_options_irrelevant :
+  forall (opts : list popt) (x : ereq),
+    model_esreq (filter (fun o => negb (at_opt o)) opts) x = model_esreq opts x.
+Proof. exact access_token_options_irrelevant. Qed.
+Print Assumptions C18_access_token_options_irrelevant.
+
 (* The hint verifier expects the issuer of the CURRENT request: a hint really signed by the
-   provider for another issuer (another host of the same dynamic-issuer provider) is rejected;
+   provider for another issuer (another host of the same dynamic-issuer provider) is rejected,
+   whatever the options;
    and (model, C18_spec) every answer of a request sequence depends on its own request only. *)
 Theorem C18_foreign_issuer_rejected :
   forall (pmatch : string -> string -> pres) (uparse : string -> option purl)
-         (default_uri : string) (ts : tsfr) (cs : list lclient) (x : ereq) (key iss : string) (ex : bool) (sub azp : string),
-    r_tok x = TSigned key iss ex sub azp -> iss <> r_issuer x ->
-    exists s c, end_session pmatch uparse default_uri ts cs (r_router x) (to_esreq x) = EPage s c None.
+         (default_uri : string) (ts : tsfr) (cs : list lclient) (opts : list popt) (x : ereq)
+         (key alg iss : string) (ex : bool) (sub azp : string),
+    r_tok x = TSigned key alg iss ex sub azp -> iss <> r_issuer x ->
+    exists s c, end_session pmatch uparse default_uri ts cs (r_router x) (model_esreq opts x) = EPage s c None.
 Proof. exact foreign_issuer_rejected. Qed.
 Print Assumptions C18_foreign_issuer_rejected.
 
-(* The published key set is read for every verification: a hint signed with a key the storage
-   does not publish while THIS request is served (never published, or published during an
+(* A hint signed with a key that the key set designated for hints does not trust while THIS
+   request is served is rejected - e.g. a key only the access-token key set trusts. *)
+Theorem C18_untrusted_key_rejected :
+  forall (pmatch : string -> string -> pres) (uparse : string -> option purl)
+         (default_uri : string) (ts : tsfr) (cs : list lclient) (opts : list popt) (x : ereq)
+         (key alg iss : string) (ex : bool) (sub azp : string),
+    r_tok x = TSigned key alg iss ex sub azp ->
+    ks_trusts (designated_keys opts) (r_keys x) key = false ->
+    exists s c, end_session pmatch uparse default_uri ts cs (r_router x) (model_esreq opts x) = EPage s c None.
+Proof. exact untrusted_key_rejected. Qed.
+Print Assumptions C18_untrusted_key_rejected.
+
+(* A hint signed with an algorithm outside the list configured for the HINT verifier is rejected. *)
+Theorem C18_unsupported_alg_rejected :
+  forall (pmatch : string -> string -> pres) (uparse : string -> option purl)
+         (default_uri : string) (ts : tsfr) (cs : list lclient) (opts : list popt) (x : ereq)
+         (key alg iss : string) (ex : bool) (sub azp : string),
+    r_tok x = TSigned key alg iss ex sub azp ->
+    alg_allowed (designated_algs opts) alg = false ->
+    exists s c, end_session pmatch uparse default_uri ts cs (r_router x) (model_esreq opts x) = EPage s c None.
+Proof. exact unsupported_alg_rejected. Qed.
+Print Assumptions C18_unsupported_alg_rejected.
+
+(* Without a WithIDTokenHintKeySet - whatever WithAccessTokenKeySet was given - the published key
+   set is read for every verification: a hint signed with a key the storage
+   does not publish while THIS request is served (never published: a foreign key; or published during an
    earlier request of the same provider and withdrawn since) is rejected. *)
 Theorem C18_withdrawn_key_rejected :
   forall (pmatch : string -> string -> pres) (uparse : string -> option purl)
-         (default_uri : string) (ts : tsfr) (cs : list lclient) (x : ereq) (key iss : string) (ex : bool) (sub azp : string),
-    r_tok x = TSigned key iss ex sub azp -> ~ In key (r_keys x) ->
-    exists s c, end_session pmatch uparse default_uri ts cs (r_router x) (to_esreq x) = EPage s c None.
+         (default_uri : string) (ts : tsfr) (cs : list lclient) (opts : list popt) (x : ereq)
+         (key alg iss : string) (ex : bool) (sub azp : string),
+    last_hint_keys opts = None ->
+    r_tok x = TSigned key alg iss ex sub azp -> ~ In key (r_keys x) ->
+    exists s c, end_session pmatch uparse default_uri ts cs (r_router x) (model_esreq opts x) = EPage s c None.
 Proof. exact withdrawn_key_rejected. Qed.
 Print Assumptions C18_withdrawn_key_rejected.
 
